@@ -461,6 +461,15 @@ func c10Body(p c10Plan, c *stats.Case, sink *errSink) {
 			}
 			cancel()
 			synctest.Wait()
+			// a lookup is only finished when its queries are: it may not return while queries it started are
+			// still outstanding (their late replies would arrive at a lookup that no longer exists)
+			r.lock()
+			outstanding := len(r.parked)
+			r.unlock()
+			if isDone() && outstanding > 0 {
+				sink.add(fmt.Errorf("the lookup returned right after the cancellation while %d of its queries were still outstanding", outstanding))
+				break
+			}
 			// from here on nothing parks: outstanding queries return and are drained
 			r.lock()
 			r.free = true
